@@ -974,9 +974,9 @@ func innermostLit(f *FuncInfo, n ast.Node) *ast.FuncLit {
 func checkWriterIntakeClosedWorld(c *Ctx, rule string) {
 	p := c.P
 	reviewed := map[string]string{
-		"pkg/cafs.fsWriter.Write": "the checked intake (window, hand-off, counter rules)",
-		"pkg/cafs.fsWriter.flush": "trailing leaf",
-		"pkg/cafs.fsWriter.Flush": "hand-shake and root",
+		"pkg/cafs.fsWriter.Write":   "the checked intake (window, hand-off, counter rules)",
+		"pkg/cafs.fsWriter.flush":   "trailing leaf",
+		"pkg/cafs.fsWriter.Flush":   "hand-shake and root",
 		"pkg/cafs.defaultFs.writer": "constructor",
 	}
 	n := 0
